@@ -133,6 +133,13 @@ def cxFreeW : Nat → World → Nat → Nat → World
        | none => w)
     | none => w
 
+/-- `cx_free(slot, ptr)` with the NULL filter of usual/cxalloc.c (`none` = NULL: nothing happens,
+    the allocator's `c_free` is not called) -/
+def cxFreeOptW (fuel : Nat) (w : World) (slot : Nat) (ptr : Option Nat) : World :=
+  match ptr with
+  | none => w
+  | some p => cxFreeW fuel w slot p
+
 def cxReallocW : Nat → World → Nat → Nat → Nat → Nat → World × Option Nat
   | 0, w, _, _, _, _ => (w, none)
   | fuel + 1, w, slot, ptr, len, mis =>
